@@ -5,6 +5,7 @@ pub mod refuse;
 pub mod rt;
 pub mod rtree;
 pub mod sched;
+pub mod slice;
 pub mod tfb;
 pub mod zoom;
 
@@ -17,6 +18,10 @@ pub fn special(cmd: &str, _seed: u64, tier: Tier, _scratch: &Path, _arg: &str) -
         "readq" => Some(readq::run(_arg)),
         "c12x-count" => {
             println!("{}", tfb::histories(tier).len());
+            Some(0)
+        }
+        "c18i-count" => {
+            println!("{}", slice::run_vectors().len());
             Some(0)
         }
         "c05-count" => {
